@@ -24,6 +24,7 @@ static inline void ghost_setup(int inject)
     __CPROVER_assume(g_nprocs >= 1 && g_nprocs <= 1024 && g_rank >= 0 && g_rank < g_nprocs);
     g_coll_n = 0; g_io_n = 0; g_nwrites = 0; g_io_failed = 0; g_view_n = 0;
     g_type_live = g_comm_live = g_info_live = g_file_live = 0; g_type_next = 0;
+    g_file_mode = 0; g_file_len = 0; g_full_reads = 0; g_last_got = -1; g_last_io_bytes = 0;
     g_fail_at = -1; g_view_fail_at = -1; g_sync_fail = 0; g_get_count = -1;
     for (int i = 0; i < G_COLL_MAX; i++) g_agreed_ll[i] = nondet_ll();
     if (inject) {
